@@ -40,7 +40,13 @@ RELAY_CLASSES = {
 }
 
 DESTS = {"noquery": "https://sp.example.org/acs/post", "query": "https://sp.example.org/acs?tenant=t1&lang=en",
-         "query-special": "https://sp.example.org/acs?next=%2Fhome%3Fa%3D1&x=y+z"}
+         "query-special": "https://sp.example.org/acs?next=%2Fhome%3Fa%3D1&x=y+z",
+         # the edges of "with and without an existing query string": an empty query, a query ending in a separator, a fragment
+         "query-empty": "https://sp.example.org/acs?", "query-trailing-amp": "https://sp.example.org/acs?tenant=t1&",
+         "fragment": "https://sp.example.org/acs#top", "query+fragment": "https://sp.example.org/acs?tenant=t1#top",
+         # characters that mean something to HTML in the destination (only the form carries the destination as text)
+         "html-special": "https://sp.example.org/acs?a=\"x\"&b=<y>'z'&amp;c"}
+DEST_EDGES = ("query-empty", "query-trailing-amp", "fragment", "query+fragment", "html-special")
 
 
 class FormReader(html.parser.HTMLParser):
@@ -131,6 +137,41 @@ def run_instance(case, ctx):
     return {"outcome": "violations" if viol else "held", "nontrivial": True, "violations": viol, "counters": counters}
 
 
+ARS_INDEXES = list(range(0, 36)) + [99, 100, 127, 128, 160, 171, 255]
+
+
+def run_artifact_index(case, ctx):
+    """create_artifact(entity, handle, i) followed by artifact2destination: the location registered under index i, for every index the
+    two-digit field can hold a sample of"""
+    from saml2_tophat.entity import create_artifact
+    from saml2_tophat import BINDING_SOAP as SOAPB
+    ars = [("https://idp.example.org/ars/%d" % i, SOAPB, i) for i in ARS_INDEXES]
+    idc = fed.idp_conf()
+    idc["service"]["idp"]["endpoints"]["artifact_resolution_service"] = ars
+    sp = fed.make_sp(fed.sp_conf(), [fed.metadata_of(idc)])
+    viol, counters = [], {"independent_reads": 0, "library_decodes": 0}
+    declared = {}
+    md = ET.fromstring(fed.metadata_of(idc).encode("utf-8"))
+    for e in md.iter("{urn:oasis:names:tc:SAML:2.0:metadata}ArtifactResolutionService"):
+        declared[int(e.get("index"))] = e.get("Location")
+        counters["independent_reads"] += 1
+    for i in ARS_INDEXES:
+        art = create_artifact(fed.IDP_EID, ("handle%016d" % i).encode()[:20], i)
+        raw = base64.b64decode(art)
+        if len(raw) != 44:
+            viol.append({"key": "C14/artifact-layout", "what": "artifact for endpoint index %d is %d bytes long, not 44" % (i, len(raw))})
+            continue
+        try:
+            got = sp.artifact2destination(art, "idpsso")
+        except Exception as exc:
+            got = "raised %s" % type(exc).__name__
+        counters["library_decodes"] += 1
+        if got != declared.get(i):
+            viol.append({"key": "C14/artifact-endpoint-index-not-read-back", "what": "artifact created for endpoint index %d resolves to %r, the metadata has %r under that index" % (
+                i, got, declared.get(i))})
+    return {"outcome": "violations" if viol else "roundtrip-ok", "nontrivial": True, "violations": viol[:4], "counters": counters, "obs": {"kind": "artifact-index"}}
+
+
 def setup_worker(ctx):
     sp, idp = fed.pair()
     ctx.sp, ctx.idp = sp, idp
@@ -179,6 +220,10 @@ def gen_cases(tier, seed):
                     for dk in sorted(DESTS):
                         if tier == "quick" and dk == "query-special" and ri:
                             continue
+                        if dk in DEST_EDGES and (ri or binding in ("soap", "paos") or (tier == "quick" and mk not in (0, 5))):
+                            continue
+                        if dk == "html-special" and binding != "post":
+                            continue
                         cases.append({"id": "%s-m%d-%s%d-%s" % (binding, mk, rclass, ri, dk), "sig": [binding, mk, rclass, dk],
                                       "binding": binding, "msg": mk, "relay": relay, "rclass": rclass, "dest": dk})
     # packaging of message OBJECTS (what the PAOS/ECP and artifact-resolution encoders do: envelope built around an instance, message carried
@@ -194,6 +239,20 @@ def gen_cases(tier, seed):
         for binding in ("post", "redirect"):
             cases.append({"id": "%s-payload-%d" % (binding, k), "sig": [binding, "payload", k % 7, "noquery"], "binding": binding, "msg": None,
                           "payload": payload, "relay": r2.choice(RELAY_CLASSES["amp"] + RELAY_CLASSES["quotes"]), "rclass": "mixed", "dest": "noquery"})
+    # the same payloads handed over as bytes (a serialised message is bytes as often as str)
+    for k in range(12 if tier == "quick" else 200):
+        r2 = random.Random("%s/bytes-payload/%d" % (seed, k))
+        payload = "".join(r2.choice([gen.value(r2), "\n", "€", "<a b='c'/>", " "]) for _ in range(r2.randint(1, 12)))
+        for binding in ("post", "redirect"):
+            cases.append({"id": "%s-bytes-payload-%d" % (binding, k), "sig": [binding, "bytes-payload", k % 5, "noquery"], "binding": binding, "msg": None,
+                          "payload": payload, "as_bytes": True, "relay": "rs", "rclass": "plain", "dest": "noquery"})
+    for mk in (0, 2, 5):
+        for binding in ("post", "redirect", "redirect-signed"):
+            cases.append({"id": "%s-bytes-m%d" % (binding, mk), "sig": [binding, "bytes-message", mk, "noquery"], "binding": binding, "msg": mk,
+                          "as_bytes": True, "relay": "rs", "rclass": "plain", "dest": "noquery"})
+    # artifacts: the endpoint index written into an artifact is the one read back from it
+    cases.append({"id": "artifact-endpoint-index", "sig": ["artifact-endpoint-index"], "binding": "artifact-index", "msg": None, "relay": "", "rclass": "empty",
+                  "dest": "noquery"})
     # size: payloads around every power of two from 1 KiB to 1 MiB (buffers, limits and chunking live there), compressible and not
     exps = (10, 12, 13, 14, 15, 16, 17, 20) if tier == "quick" else range(8, 23)
     for e in exps:
@@ -237,6 +296,8 @@ def run_case(case, ctx):
 def _run_case(case, ctx):
     if case["binding"] == "instance":
         return run_instance(case, ctx)
+    if case["binding"] == "artifact-index":
+        return run_artifact_index(case, ctx)
     from saml2_tophat.entity import Entity
     ent = ctx.idp if (case["msg"] is not None and case["msg"] >= 4) else ctx.sp
     binding = case["binding"]
@@ -253,6 +314,8 @@ def _run_case(case, ctx):
         kind, msg, is_resp, soaptype = ctx.msgs[case["msg"]]
     typ = "SAMLResponse" if is_resp else "SAMLRequest"
     msg_bytes = msg.encode("utf-8") if isinstance(msg, str) else msg
+    if case.get("as_bytes"):
+        msg = msg_bytes
 
     def bad(key, what):
         viol.append({"key": "C14/" + key, "what": "%s %s dest=%s relay=%r: %s" % (binding, kind, case["dest"], relay, what)})
